@@ -336,6 +336,12 @@ fn reach(case: &Case, out: &RunOutput, calls: &[lin::Call], rt: &mut Rt) {
 
 /// judge one run; `oracle` is shared by all schedules of the same case
 fn judge(case: &Arc<Case>, out: &RunOutput, oracle: &mut SeqOracle, rt: &mut Rt) -> Option<(String, String)> {
+    lin_judge(case, out, oracle, rt, true)
+}
+
+/// no panic, no deadlock/livelock, every call returned, and the history is linearizable against the
+/// sequential engine (shared with the concurrent sub-family of C18)
+pub fn lin_judge(case: &Arc<Case>, out: &RunOutput, oracle: &mut SeqOracle, rt: &mut Rt, with_reach: bool) -> Option<(String, String)> {
     if let Some(v) = run_level_violation(out) {
         return Some(v);
     }
@@ -350,7 +356,9 @@ fn judge(case: &Arc<Case>, out: &RunOutput, oracle: &mut SeqOracle, rt: &mut Rt)
         return Some(("incomplete".into(), format!("{} of {} calls returned", all.len(), expected)));
     }
     let calls: Vec<lin::Call> = all.into_iter().filter(|c| !matches!(c.id, OpId::Pre(_))).collect();
-    reach(case, out, &calls, rt);
+    if with_reach {
+        reach(case, out, &calls, rt);
+    }
     if overlapping_pairs(&calls) > 0 {
         rt.nontrivial(out.schedule_hash() ^ case.fingerprint());
     }
